@@ -437,7 +437,9 @@ func TestVP_C28_proposer_phases(t *testing.T) {
 			}
 			t.Fatalf("without interference the proposer (member %d, day %d hour %d, own head %s) did not announce its custodian update %s (hook: %q)", self, day, hour, head, opHash, violation)
 		case proposal != nil && interfered:
-			t.Fatalf("the proposer announced %s although its operation %s references %s and the recorded last consensus operation is %s", snap.Hash, opHash, L, pledgeHash)
+			// announcing a stale operation is not yet accepting it: the peers play
+			// along and the oracle judges what the proposer finalizes
+			classes["announced-after-interference"] = true
 		}
 		// full commitments the kernel queued for peers that pre-committed
 		queued := map[crypto.Hash]*CosiAction{}
@@ -490,9 +492,6 @@ func TestVP_C28_proposer_phases(t *testing.T) {
 			switch {
 			case p.accepted:
 				committedPeers++
-				if refused {
-					t.Fatalf("harness: commitment of the predicted removal candidate accepted")
-				}
 				if repeatCommit && committedPeers == 1 {
 					commit(p)
 					classes["repeat-commitment"] = true
@@ -550,8 +549,11 @@ func TestVP_C28_proposer_phases(t *testing.T) {
 				}
 			}
 		}
-		if kind != "none" && !interfered {
-			t.Fatalf("harness: the proposal never reached the point %s/%d (announced %v, challenged %v, hook: %q)", kind, after, proposal != nil, challenged(), violation)
+		if kind != "none" && !interfered && violation == "" {
+			// the exchange stopped before the drawn point (never on the unchanged
+			// tree: every interference class is required)
+			c.Class("excluded-point-not-reached")
+			return
 		}
 
 		// ---- a later operation that follows the proposer's
